@@ -84,3 +84,20 @@ let () =
         ^ ",\"read_lit\":" ^ jtext (read_single lit)
         ^ ",\"lit_lexes\":" ^ (if lex_body q body then "true" else "false") ^ "}"
     | _ -> raise (Bad "str1"))
+
+(* C09: the writer: (writer (prefix cps) (ops...)) with ops (line) (stmnt (cps) nl) (indent) (dedent) (add off cur) *)
+let () =
+  register "writer" (function
+    | L [ _; L pre; L ops ] ->
+        let txt l = List.map (fun c -> n_of_int (as_int c)) l in
+        let op = function
+          | L [ Atom "line" ] -> WLine
+          | L [ Atom "stmnt"; L cps; b ] -> WStmnt (txt cps, as_bool b)
+          | L [ Atom "indent" ] -> WIndent
+          | L [ Atom "dedent" ] -> WDedent
+          | L [ Atom "add"; off; b ] -> WAdd (as_z off, as_bool b)
+          | _ -> raise (Bad "writer op") in
+        let w = wrun (List.map op ops) (winit (txt pre)) in
+        "{\"r\":\"ok\",\"out\":" ^ jtext w.out ^ ",\"line\":" ^ jnat w.line ^ ",\"entries\":"
+        ^ jlist (fun ((o, l), c) -> "[" ^ string_of_z o ^ "," ^ jnat l ^ "," ^ jnat c ^ "]") w.entries ^ "}"
+    | _ -> raise (Bad "writer"))
